@@ -2107,9 +2107,27 @@ def format_percent(it, fmt, arg):
 # ------------------------------------------------------------------------------------------------
 # generators
 
+def _delegation_outcomes(it, v):
+    """`yield from <opaque iterable>` delegates every element to the consumer.  Besides running to exhaustion, the consumer
+    may stop resuming us while we are delegating (GeneratorExit is raised here: `finally` blocks run, nothing after the
+    statement does), and the delegate itself may raise."""
+    if it.explore_abandon:
+        outcomes = ['done', 'abandon'] + (['raise'] if getattr(v, 'may_raise', False) else [])
+        d = it.decide(len(outcomes), lambda i: True)
+        if outcomes[d] == 'abandon':
+            it.emit(Ev('Abandon'))
+            raise PathEnd('abandon')
+        if outcomes[d] == 'raise':
+            e = symbolic_exception(it, 'upstream_exc')
+            it.emit(Ev('PullRaises', src=getattr(v, 'name', '?'), exc=e, label='yield-from'))
+            it.path.info['upstream_raise'] = True
+            raise PyExc(e)
+
+
 def yield_from(it, v):
     if isinstance(v, Stream):
         it.emit(Ev('YieldFrom', src=v))
+        _delegation_outcomes(it, v)
         v.drained = True
         return None
     if isinstance(v, GenObj):
@@ -2117,9 +2135,11 @@ def yield_from(it, v):
         if q in it.inline or '*' in it.inline:
             return it.run_generator(v)
         it.emit(Ev('YieldFrom', src=v))
+        _delegation_outcomes(it, v)
         return None
     if isinstance(v, Opaque):
         it.emit(Ev('YieldFrom', src=v))
+        _delegation_outcomes(it, v)
         return None
     if isinstance(v, GenExp) and len(v.node.generators) == 1 and isinstance(v.node, ast.GeneratorExp):
         # `yield from (elt for t in src if c)`  ==  `for t in src: if c: yield elt`
